@@ -413,6 +413,10 @@ def main_wrapper(fn):
     except Machinery as ex:
         log("MACHINERY FAILURE: %s" % ex)
         rc = 2
+    except Exception:         # a bug in the checking code is never a verdict about gosk
+        import traceback
+        log("MACHINERY FAILURE (internal error of the check):\n" + traceback.format_exc())
+        rc = 2
     finally:
         if not a.keep:
             ctx.cleanup()
